@@ -154,7 +154,7 @@ func c08VerifyN(ack bool, twoStorageEntries bool) error {
 		rt.Assume(len(p.StorageProof) == 2)
 		p = Proof{}
 	}
-	want := h.RevisionHeight <= head && head-h.RevisionHeight >= cs.GetDelayBlock() && found && proofBz != nil && json.Unmarshal(proofBz, &p) == nil &&
+	want := h.RevisionHeight <= head && head-h.RevisionHeight >= c08RequiredConfirmations(cs) && found && proofBz != nil && json.Unmarshal(proofBz, &p) == nil &&
 		specAccept(root, cs.ContractAddress, p, pathKey, value)
 
 	var err error
